@@ -4,6 +4,7 @@ META = {
 }
 
 B = 64
+FS = ["--max-field-sensitivity-array-size", "128"]
 
 def tagbytes(cfg):
     cs, b64 = cfg.get("FEAT_CSUM", 0), cfg.get("FEAT_64BIT", 0)
@@ -48,9 +49,16 @@ def cfgs(base_list):
 HARNESSES = [
     dict(name="scan", src="scan.c",
          funcs=["do_one_pass", "count_tags", "jread"],
-         configs=cfgs([{"FEAT_64BIT": 0, "REF_MAXWALK": 6}, {"FEAT_64BIT": 1, "REF_MAXWALK": 6}]),
-         unwind=3, cbmc_flags=["--max-field-sensitivity-array-size", "128"],
+         configs=cfgs([{"FEAT_64BIT": 0, "REF_MAXWALK": 4}, {"FEAT_64BIT": 1, "REF_MAXWALK": 6}]),
+         unwind=3, cbmc_flags=FS,
          backends=["default", "kissat"],
          bound="journal of 6 blocks of 64 bytes, every byte symbolic; s_first, s_start, s_sequence symbolic; log walk <= 10 header blocks"),
+    dict(name="revoke_pass", src="revoke_pass.c",
+         funcs=["do_one_pass", "scan_revoke_records", "jbd2_journal_set_revoke", "jbd2_journal_test_revoke",
+                "find_revoke_record", "insert_revoke_hash", "jbd2_journal_clear_revoke", "jbd2_journal_init_revoke"],
+         configs=cfgs([{"FEAT_64BIT": 0, "FIRST": 1, "REF_MAXWALK": 4}]),
+         unwind=3, cbmc_flags=FS,
+         backends=["default", "kissat"],
+         bound=""),
 ]
 MANIFEST = {"text": "", "note": ""}
